@@ -342,7 +342,24 @@ def admission_scenario(rng, idx, tag):
             pws = sorted({x["auth"]["pw"] for x in users if x["name"] == u and x["auth"]["k"] == "bcrypt"})
             pw = rng.choice(pws) if pws else "nope-" + tag
             steps.append(step(c, len(steps) % 4, 1, start(u, pw, atype=2), minor=1, fl=1))
-    return {"id": "c13-%d" % idx, "cfg": cfg, "conns": conns, "steps": steps, "iso": False, "log": False}
+    sc = {"id": "c13-%d" % idx, "cfg": cfg, "conns": conns, "steps": steps, "iso": False, "log": False}
+    k = rng.random()
+    if k < 0.3:
+        # the loader was given another configuration before this one: what is in force must be THIS one's lists and order
+        pre = copy.deepcopy(cfg)
+        kk = rng.random()
+        if kk < 0.5:
+            # same secrets and users, other deny / allow lists (none, or lists that would admit / refuse other addresses)
+            pre["deny"] = [prefix(x) for x in rng.sample(POOL4 + POOL6, rng.choice([0, 1, 2]))]
+            pre["allow"] = [prefix(x) for x in rng.sample(POOL4 + POOL6, rng.choice([0, 0, 1, 2]))]
+        elif kk < 0.8:
+            pre["secrets"] = list(reversed(pre["secrets"]))
+            pre["deny"], pre["allow"] = [], []
+        else:
+            pre["users"] = pre["users"][:1]
+            pre["deny"] = [prefix(rng.choice(POOL4))]
+        sc["pre"] = [pre] if rng.random() < 0.8 else [pre, copy.deepcopy(cfg), pre]
+    return sc
 
 
 def scenario(rng, idx, prop, tag):
